@@ -4,6 +4,7 @@ import (
 	"fmt"
 	"go/token"
 	"go/types"
+	"os"
 	"strings"
 
 	"golang.org/x/tools/go/ssa"
@@ -239,6 +240,9 @@ func (st *State) initPackage(pkg *ssa.Package) {
 		}()
 		st.call(initFn, nil, nil)
 	}()
+	if why, bad := vm.initPoison[pkg]; bad && os.Getenv("SYMGO_DEBUG_INIT") != "" {
+		fmt.Fprintf(os.Stderr, "init of %s aborted: %s\n", pkg.Pkg.Path(), why)
+	}
 	st.inInit--
 	st.steps = savedSteps
 	st.curFn = saved.curFn
@@ -276,6 +280,11 @@ func (st *State) callSSA(fn *ssa.Function, args []Value, env []Value, caller *fr
 	vm := st.vm
 	name := fn.String()
 	if fn.Parent() == nil {
+		if fn.Name() == "init" && fn.Pkg != nil && st.inInit > 0 && caller != nil && caller.fn.Name() == "init" && caller.fn.Pkg != fn.Pkg {
+			// imported package's init called from a package init: packages are
+			// initialised lazily on first access instead.
+			return nil
+		}
 		if rep, ok := vm.Replace[name]; ok && st.inInit == 0 {
 			return st.callSSA(rep, args, nil, caller)
 		}
@@ -284,11 +293,6 @@ func (st *State) callSSA(fn *ssa.Function, args []Value, env []Value, caller *fr
 		}
 		if fn.Pkg != nil && fn.Pkg.Pkg.Path() == vm.APIPath {
 			return st.callAPI(fn, args, caller)
-		}
-		if fn.Name() == "init" && fn.Pkg != nil && st.inInit > 0 && caller != nil && caller.fn.Name() == "init" && caller.fn.Pkg != fn.Pkg {
-			// imported package's init called from a package init: packages are
-			// initialised lazily on first access instead.
-			return nil
 		}
 	}
 	if fn.Blocks == nil {
